@@ -819,7 +819,7 @@ MANIFEST = {
 
 
 def run(ctx):
-    ctx.search("schedule", cases(), quick=1600, thorough=4000)
+    ctx.search("schedule", cases(), quick=1600, thorough=8000)
 
 
 MUTANTS = [
